@@ -483,6 +483,7 @@ func (r *Runner) reopen(ro *Reopen) *Violation {
 		r.curMax = ro.NewMax
 		r.openOpts.MaxSize = opts.MaxSize
 		r.openOpts.Prealloc = opts.Prealloc
+		r.openOpts.InitMetaArea = 0 // creation-time option; would be validated against the new max size
 		r.count("resize")
 	}
 	after := f.VerifState()
